@@ -453,4 +453,10 @@ theorem docOp_error_no_write (s : DState) (line c t : String) (cn tn : Nat) (cfg
   exact ⟨(matcher_error_no_write _ _ _ _ _ _ _).1, (matcher_error_no_write _ _ _ _ _ _ _).1,
     (matcher_error_no_write_standalone _ _ _ _ _ _).1⟩
 
+/-- structural fact read from the source on every run: in matchJSON, matchYAML and
+matchStandaloneJSON the ordinal is taken (`getTestID`) before the input is validated and the
+matchers are applied, as in the model's `matchEntry` / `matchStandalone` (where the registry bump
+precedes the inspection of `pre`).  With `ordinal_consumed` this is "later calls keep their slots". -/
+theorem ordinal_taken_before_validation : Generated.ordinalBeforeValidation = true := by decide
+
 end GoSnaps.C17
